@@ -202,7 +202,12 @@ def judge_rule_stream(ctx: Ctx, stream: Stream, results, aspect: str, whole_spac
         mcls, mitems = split_model(ans.get("M", "?"))
         scls, sitems = split_model(ans.get("S", "NA"))
         dom = ans.get("D", "-")
-        in_domain = dom == "wsn"
+        # oracle domain: strict rules (Pta.C01.verdict_spec), and - related names allowed - plain should / should_not rules
+        # whose subjects and objects are all given by name (only 'edge' questions are asked; Pta.C01.verdict_spec_plain_named)
+        sp = case.get("spec") or {}
+        plain_named = bool(sp) and sp.get("sx") == "0" and sp.get("sv") in ("should", "not") and sp.get("sa") != "1" \
+            and all(k == "N" for k, _ in sp.get("ss", []) + sp.get("so", []))
+        in_domain = dom == "wsn" or (plain_named and len(dom) == 3 and dom[0] == "w" and dom[2] == "n")
         stream.count(f"impl:{icls.split(':')[0]}")
         stream.count("in-domain" if in_domain else "out-of-domain")
         if nontrivial(case) and in_domain:
@@ -226,7 +231,7 @@ def judge_rule_stream(ctx: Ctx, stream: Stream, results, aspect: str, whole_spac
         if prop_fails:
             def still_fails(c, aspect=aspect):
                 (c2, i2, a2), = evaluate(Ctx(ctx.prop, ctx.tier, ctx.seed, jobs=1), [c])
-                if a2.get("D") != "wsn":
+                if a2.get("D") != ans.get("D"):
                     return False
                 ic, ii, _ = split_impl(i2)
                 sc, si = split_model(a2.get("S", "NA"))
@@ -357,5 +362,79 @@ def reuse_stream(ctx: Ctx, stream: Stream, n: int):
                                    "what": "a rule object that was applied to another architecture before gives a different outcome than a fresh rule object",
                                    "line": gen.rule_line(c), "first_architecture": {"nodes": c["nodes1"], "imports": c["imps1"]},
                                    "reused": a, "fresh": b, "model": parse_answer(an).get("M")})
+            if len(ctx.violations) >= 3:
+                return
+
+
+# --------------------------------------------------------------------------------------- partial names (deprecated form)
+def _safe_matches(rx, nodes):
+    """modules a pattern produced by the LIBRARY's converter matches; a pattern that is not even a valid regular
+    expression (a converter that stopped escaping) matches nothing here - the real rule then fails in its own way and the
+    comparison with the expansion reports it"""
+    import re as _re
+
+    try:
+        return [m for m in nodes if _re.match(rx, m)]
+    except _re.error:
+        return []
+
+
+def partial_name_stream(ctx: Ctx, stream: Stream, n: int):
+    """have_name_containing(frag) must behave like naming the modules the GLOB MEANING of frag selects (literal text with an
+    optional leading/trailing *, every other character - dots included - literal), and raise the no-match error when a
+    fragment of the batch selects nothing. The expected selection is computed here from the documented meaning, not by
+    the library's converter."""
+    import re as _re
+
+    from pytestarch.utils.partial_match_to_regex_converter import convert_partial_match_to_regex as conv
+
+    from .scan_common import glob_spec
+
+    rng = ctx.rng("partial-names")
+    pairs = []
+    for c in random_cases(rng, 3 * n, comps=gen.ADVERSARIAL, strict=False, max_nodes=12, max_imports=10):
+        if len(pairs) >= n:
+            break
+        nodes = c["nodes"]
+        positions = [i for i, (op, arg) in enumerate(c["ops"]) if isinstance(arg, list)]
+        if not positions:
+            continue
+        i = rng.choice(positions)
+        base = rng.choice(nodes)
+        tail = ".".join(base.split(".")[-2:])
+        frags = [rng.choice([base, "*" + tail, "*." + base.split(".")[-1], base.split(".")[0] + ".*", "*" + tail[1:] + "*", tail.replace(".", "?")])]
+        if rng.random() < 0.3:
+            frags.append(rng.choice(["zz_no_such*", "*zz_none", rng.choice(nodes)]))
+        sel = [[m for m in nodes if glob_spec(f, m)] for f in frags]
+        ops_c = list(c["ops"])
+        ops_c[i] = ("contain", frags)
+        rxs = [conv(f) for f in frags]
+        compact = {"nodes": nodes, "imps": c["imps"], "lim": None, "ops": ops_c, "spec": None, "mtab": [(rx, _safe_matches(rx, nodes)) for rx in rxs]}
+        if all(sel):
+            ops_e = list(c["ops"])
+            ops_e[i] = ("named", [m for ms in sel for m in ms])
+            expanded = {"nodes": nodes, "imps": c["imps"], "lim": None, "ops": ops_e, "spec": None}
+        else:
+            expanded = None
+        pairs.append((compact, expanded, frags))
+    flat = [x for a, b, _ in pairs for x in (a, b) if x is not None]
+    res = iter(pmap(gen.impl_rule, flat, ctx.jobs))
+    for compact, expanded, frags in pairs:
+        a = next(res)
+        b = next(res) if expanded is not None else None
+        stream.evaluations += 1
+        stream.count("partial:" + a.split(":")[0].split(" ")[0])
+        stream.nontrivial.add(digest((compact["nodes"], compact["ops"])))
+        bad = None
+        if expanded is None:
+            if not a.startswith("ERR:impossibleMatch"):
+                bad = f"a partial name that selects no module does not raise the no-match error: {a}"
+        else:
+            ka, kb = a.rsplit(" I=", 1)[0], b.rsplit(" I=", 1)[0]
+            if ka != kb and not (ka.startswith("FAIL") and kb.startswith("FAIL") and set(ka[5:].split(";")) == set(kb[5:].split(";"))):
+                bad = f"have_name_containing({frags}) differs from naming the modules its glob meaning selects: {ka[:300]} vs {kb[:300]}"
+        if bad:
+            ctx.violations.append({"kind": "property-violation", "what": bad, "line": gen.rule_line(compact),
+                                   "expanded": gen.rule_line(expanded) if expanded else None, "python": python_snippet(compact)})
             if len(ctx.violations) >= 3:
                 return
